@@ -88,7 +88,11 @@ const delegUnit = 1000
 
 // opWitness: K=wit, W sender, A = legs "kind:chain" (index = weight), Ref end mode, Gas.
 func opWitness(w *World, op *Op) {
-	tok, okT := w.ResolveAddr("erc20:0")
+	tokSym := "erc20:0"
+	if strings.HasPrefix(op.To, "erc20:") {
+		tokSym = op.To
+	}
+	tok, okT := w.ResolveAddr(tokSym)
 	stk, okS := w.ResolveAddr("staking")
 	seq := w.Labels["seq"]
 	if !okT {
